@@ -488,14 +488,29 @@ class Plugin(object):
         gc, sub = hook_gcode(cmd)
         n0 = len(self.arc.log)
         # OctoPrint's calling convention: sub-code and tags are keyword arguments
-        raw = None if self.h_gcode is None else self.h_gcode(self.comm, "queuing", cmd, None, gc, subcode=sub, tags=set())
+        raw = None if self.h_gcode is None else self.h_gcode(self.comm, "queuing", cmd, None, gc, subcode=sub, tags=self.next_tags())
         samples = list(self.arc.log[-1][2]) if len(self.arc.log) > n0 else None
         return raw, normalise(raw, cmd), samples
 
     def at(self, cmd, params):
         self.comm.take()
-        res = None if self.h_at is None else self.h_at(self.comm, "queuing", cmd, params, tags=set())
+        res = None if self.h_at is None else self.h_at(self.comm, "queuing", cmd, params, tags=self.next_tags())
         return res, self.comm.take()
+
+    def next_tags(self):
+        """The tags OctoPrint attaches to a queued command: mostly a line of the printed file, now and then one sent through the
+        API, by a script or by another plugin (a deterministic cycle, so that a replay sees the same tags)."""
+        self.ntags = getattr(self, "ntags", 0) + 1
+        n = self.ntags
+        if n % 11 == 5:
+            return {"source:api", "api:printer.command"}
+        if n % 13 == 7:
+            return {"source:script", "script:afterPrintResumed"}
+        if n % 17 == 3:
+            return {"source:plugin", "plugin:someother"}
+        if n % 19 == 4:
+            return set()
+        return {"source:file", "filepos:%d" % (n * 23), "fileline:%d" % n}
 
     def script(self, stype, sname):
         return None if self.h_script is None else self.h_script(self.comm, stype, sname)
